@@ -181,7 +181,10 @@ def run_tlc(module: str,
     # kernel (measured: 10 s vs 3.6 s for 8 JVMs)
     java = ['java'] + gc + [f'-Xmx{heap}', '-Xms256m', '-Xss64m',
                             f'-XX:ActiveProcessorCount={max(2, workers)}',
-                            f'-DTLA-Library={SPEC}:{TLAPS_LIB}']
+                            f'-DTLA-Library={SPEC}:{TLAPS_LIB}',
+                            # TLC / SANY scratch files go to the run's own work
+                            # directory (removed at exit), not to /tmp
+                            f'-Djava.io.tmpdir={d}']
     if workers == 1 and not long_run:
         # short single-threaded runs (trace validation, exports) are
         # dominated by JIT warm-up: C1 only halves their CPU time
